@@ -70,6 +70,17 @@ CHECKS["C04"] = dict(
          "(incl. targeted initial values = bias + constant), certificates verified by the Lean driver, exact rational inequalities.",
     technique="Lean 4 proof of the gain bracket / residual bounds from monotone+shift at gamma=1 + certificate-checked runs of the real solver",
     ref="§8 C04", note="Existence of a solution of the average-reward optimality equation for unichain MDPs (Puterman 8.4) is assumed, not proved.")
+CHECKS["C07"] = dict(
+    text="Theorems (any period, any number of wraps of the buffer): the value component is exactly the plain VI iterate; ring invariant "
+         "history_index = n mod (p+1) and slot (n-j) mod (p+1) holds V_(n-j) for j <= min(n,p); for n >= p the undiscounted measure is "
+         "sp(V_n - V_(n-p)) and the discounted one the span of the documented sum of (V_j - V_(j-1))/gamma^(j-1) over the last p sweeps; while "
+         "iteration < period the test cannot fire; the loop stops at the first iteration whose measure is < eps and the returned policy is greedy "
+         "for the returned values; for gamma = 1 and every solution (g,h) of the optimality equation min(V_n - V_(n-p)) <= p g <= max(...) "
+         "(proof uses only monotone+shift of T^p, so it covers chains periodic with period p), hence at convergence every component of "
+         "(V_n - V_(n-p))/p is within eps/p of g. Tie: real PeriodicValueIteration vs model (values, policy, iteration, value_history, "
+         "history_index, TypeError branch after clearing), plain-VI twins, driver-verified gain certificates.",
+    technique="Lean 4 induction (ring-buffer invariant with variable modulus, measure = documented formula) + p-step gain bracket + differential runs",
+    ref="§8 C07")
 PENDING = {}
 
 
